@@ -96,8 +96,10 @@ Drain(p, h, d, pop) ==
 WakeSet(newdu, popped) == IF BugWakeOnlyPopped THEN {w \in waiters : w.ts \in popped}
                           ELSE {w \in waiters : w.ts <= newdu}
 DoWake(S) == /\ waiters' = waiters \ S
-             /\ cl' = [g \in Procs |-> IF \E w \in S : w.g = g /\ w.n = cl[g].n /\ cl[g].st = "parked"
-                                       THEN [cl[g] EXCEPT !.st = "woken"] ELSE cl[g]]
+             \* "cancelled" / "wokenc" occur in trace validation only: the context of a parked wait has ended
+             \* but the call has not returned yet - its channel can still be closed, and then either result is possible
+             /\ cl' = [g \in Procs |-> IF \E w \in S : w.g = g /\ w.n = cl[g].n /\ cl[g].st \in {"parked", "cancelled"}
+                                       THEN [cl[g] EXCEPT !.st = IF @ = "parked" THEN "woken" ELSE "wokenc"] ELSE cl[g]]
 
 Take ==
     /\ cons.pc = "take" /\ chan # <<>>
@@ -105,7 +107,8 @@ Take ==
     /\ LET m == Head(chan) IN
        IF m.kind = "w"
        THEN /\ IF du >= m.ts
-               THEN /\ cl' = [cl EXCEPT ![m.g].st = IF @ = "parked" /\ cl[m.g].n = m.n THEN "woken" ELSE @]
+               THEN /\ cl' = [cl EXCEPT ![m.g].st = IF cl[m.g].n # m.n THEN @ ELSE IF @ = "parked" THEN "woken"
+                                                     ELSE IF @ = "cancelled" THEN "wokenc" ELSE @]
                     /\ UNCHANGED waiters
                ELSE waiters' = waiters \cup {[g |-> m.g, ts |-> m.ts, n |-> m.n]} /\ UNCHANGED cl
             /\ UNCHANGED <<pend, heap, cons, procB, procD>>
